@@ -16,7 +16,9 @@ Open Scope bool_scope.
 (* withoutNil *)
 Definition without_nil {A} (l : list (option A)) : list (option A) := filter present l.
 Definition strip_a05 (e : entry) : entry :=
-  mkentry (e_cat e) (e_code e) (e_a02 e) (e_a98 e) (e_a98r e) (e_a99 e) (e_a99d e) (e_a99c e) (filter (fun p => p) (e_a05 e)).
+  mkentry (e_cat e) (e_code e) (e_a02 e) (e_a98 e) (e_a98r e) (e_a99 e) (e_a99d e) (e_a99c e) (filter (fun p => p) (e_a05 e)) (e_off e).
+Definition clear_off (e : entry) : entry :=
+  mkentry (e_cat e) (e_code e) (e_a02 e) (e_a98 e) (e_a98r e) (e_a99 e) (e_a99d e) (e_a99c e) (e_a05 e) false.
 Definition strip_iat (e : iat_entry) : iat_entry :=
   mkie (ie_cat e) (ie_code e) (ie_a10 e) (ie_a11 e) (ie_a12 e) (ie_a13 e) (ie_a14 e) (ie_a15 e) (ie_a16 e)
        (ie_a98 e) (ie_a99 e) (filter (fun p => p) (ie_a17 e)) (filter (fun p => p) (ie_a18 e)).
@@ -34,8 +36,12 @@ Fixpoint json_batches (l : list (option batch)) (acc : list (option batch)) : R 
   | Some b :: t =>
       match b_header b with
       | None => json_batches t acc
-      | Some _ =>
-          let es := map (option_map strip_a05) (without_nil (b_entries b)) in
+      | Some h =>
+          (* ATX / CTX: the JSON carries no separate receiving company; an IndividualName whose first four
+             characters are not an addenda count is rewritten with SetCATXReceivingCompany — the name "OFFSET"
+             always is, so the entry no longer reads as an offset entry *)
+          let catx := sec_eqb (h_sec h) ATX || sec_eqb (h_sec h) CTX in
+          let es := map (option_map (fun e => if catx then clear_off (strip_a05 e) else strip_a05 e)) (without_nil (b_entries b)) in
           let b1 := set_adventries (without_nil (b_adventries b)) (set_entries es b) in
           r <- local b1 build ;;
           let b2 := snd r in
@@ -109,7 +115,7 @@ Inductive route :=
 | RValidateGet (id : nat) | RValidatePost (id : nat) | RDeleteFile (id : nat)
 | RCreateBatch (id : nat) (doc : file)
 | RGetBatches (id : nat) | RGetBatch (id : nat) (batch : nat) | RDeleteBatch (id : nat) (batch : nat)
-| RBalance (id : nat) (offset_ok : bool)
+| RBalance (id : nat) (offset_ok : bool) (new_id : nat)
 | RSegmentID (id credit_id debit_id : nat)
 | RSegment (b : body) (credit_id debit_id : nat)
 | RFlatten (id new_id : nat).
@@ -137,6 +143,10 @@ Definition balance_file : M file unit :=
   file_create ;;
   each_batch (modify (set_offset true) ;; batch_create) ;;
   file_create.
+
+(* `if creditFile.ID != "" { r.StoreFile(creditFile) }`: SegmentFile gives a file an ID only when it received batches *)
+Definition store_segmented (id : nat) (f : file) : M repo unit :=
+  if nonempty_file f then modify (store_file id f) else ret tt.
 
 Definition handle (x : route) : M repo unit :=
   match x with
@@ -178,8 +188,17 @@ Definition handle (x : route) : M repo unit :=
                  end
   | RGetBatches id => try (on_file id (f <- get ;; ro (ret tt))) ;; encode
   | RGetBatch id _ | RDeleteBatch id _ => try (on_file id (f <- get ;; ro (batch_ids f))) ;; encode
-  | RBalance id ok =>
-      if ok then try (on_file id balance_file) ;; encode else encode
+  | RBalance id ok nid =>
+      (* service.BalanceFile gives the balanced file a new ID and stores it again: the repository then holds the
+         same pointer under two IDs (here: a copy; what sharing means for later requests is property C17) *)
+      if ok then
+        r <- (fun r o => match on_file id (balance_file ;; get) r o with
+                         | OK g r' o' => OK (Some g) r' o'
+                         | ERR r' o' => OK None r' o'
+                         | PANIC => PANIC
+                         end) ;;
+        (match r with Some g => modify (store_file nid g) | None => ret tt end) ;; encode
+      else encode
   | RSegmentID id cid did =>
       r <- (fun r o => match on_file id (file_create ;; file_segment) r o with
                        | OK cd r' o' => OK (Some cd) r' o'
@@ -187,7 +206,7 @@ Definition handle (x : route) : M repo unit :=
                        | PANIC => PANIC
                        end) ;;
       (match r with
-       | Some (c, d) => modify (store_file cid c) ;; modify (store_file did d)
+       | Some (c, d) => store_segmented cid c ;; store_segmented did d
        | None => ret tt
        end) ;; encode
   | RSegment b cid did =>
@@ -211,7 +230,7 @@ Definition handle (x : route) : M repo unit :=
                            | PANIC => PANIC
                            end) ;;
           (match r with
-           | Some (c, d) => modify (store_file cid c) ;; modify (store_file did d)
+           | Some (c, d) => store_segmented cid c ;; store_segmented did d
            | None => ret tt
            end) ;; encode
       end
